@@ -199,6 +199,9 @@ class AsynctelnetTransport(AsyncTransport):
     def isalive(self) -> bool:
         if not self.stdin or not self.stdout:
             return False
+        if self._eof:
+            # we have seen eof or the connection failed while reading
+            return False
         return not self.stdout.at_eof()
 
     async def _read(self, n: int = 65535) -> None:
@@ -218,11 +221,21 @@ class AsynctelnetTransport(AsyncTransport):
                     "encountered EOF reading from transport; typically means the device closed the "
                     "connection"
                 ) from exc
+            except OSError as exc:
+                # connection reset, broken pipe, etc. -- there is nothing more to read
+                self._eof = True
+                raise ScrapliConnectionError(
+                    f"encountered error reading from transport, connection lost: {exc!r}"
+                ) from exc
 
     @timeout_wrapper
     async def read(self) -> bytes:
         if not self.stdout:
             raise ScrapliConnectionNotOpened
+
+        if self._eof and not self._cooked_buf:
+            # reading again would return immediately without ever yielding to the event loop
+            raise ScrapliConnectionError("transport at EOF; no more data to be read")
 
         while not self._cooked_buf and not self._eof:
             await self._read()
